@@ -95,6 +95,8 @@ def run(rep):
                 nparts = len(line.get("parts") or []) if line["form"] == "dur_lit" else 2
                 items.append({"line": line, "text": text, "cfg": CFG, "lang": lang, "expected": c["expected"], "variant": var,
                               "feat": line_feat(line), "class_fn": cls, "nontrivial": nparts > 1})
+    import lint
+    lint.report(rep, ("constant_pair",), "dur_lit")
     forms.replay(rep, items, "c10.gen")
     random_trace(rep, 3000 if quick else 40000)
 
